@@ -4,7 +4,8 @@
    fields), beam_new_gen, one state transformer per public setter, pump_from_beam_gen (From<Beam> for PumpBeam), the Snell
    conversions with the optimiser `nm` and the crystal's index `n_along` as parameters, the unit conversions.
    Model/Beam.v adds the op type, `step`/`run` (dispatch to the generated setters) and the normal forms norm_u / norm_s. *)
-From Coq Require Import Reals List.
+From Coq Require Import Reals List String.
+From Interval Require Import Tactic.
 From SpdVerif Require Import Base.Rx Model.Optics Model.Fresnel Gen.Fresnel Gen.Beam Model.Beam
   Proofs.C02_frame Proofs.C02_gen Proofs.C13_norm Proofs.C13_beam Proofs.C13_snell.
 Local Open Scope R_scope.
@@ -58,30 +59,32 @@ Theorem C13_snell_forward : forall n_along s theta_i,
   sin (calc_external_theta_from_internal_gen n_along s theta_i) = n * sin theta_i.
 Proof. exact snell_forward_relation. Qed.
 
-(* Snell round trip.  PARTIAL (conditional): argmin's Nelder-Mead is an oracle `nm`; IF on this input it returns a point in
+(* Snell round trip, either sign of the external angle (the property's [0, 80 deg] is the e >= 0 instance; since /repo 6fcae16 a
+   negative external angle gives the mirrored internal angle: b_theta = sign(e) theta*, sin|theta_e| = n(theta_i) sin|theta_i|).
+   PARTIAL (conditional): argmin's Nelder-Mead is an oracle `nm`; IF on this input it returns a point in
    its bounds [0, pi/2] with residual |sin theta_e - n(theta) sin theta| <= r, THEN the stored angle satisfies Snell's law
    within r and the read-back external angle is within r / cos M of theta_e (M any angle < pi/2 with sin theta_e + r <= sin M).
    Missing for the unconditional statement: convergence of the 100-iteration simplex (checked per input by the harness). *)
 Theorem C13_snell_roundtrip_partial : forall nm n_along s e r M,
-  beam_inv s -> 0 <= e <= M -> M < PI / 2 ->
+  beam_inv s -> Rabs e <= M -> M < PI / 2 ->
   0 <= theta_star nm n_along s e <= PI / 2 ->
   snell_cost_gen n_along s e (theta_star nm n_along s e) <= r ->
-  sin e + r <= sin M ->
+  sin (Rabs e) + r <= sin M ->
   let s' := set_theta_external_gen (snell_inv_of nm n_along) s e in
-  b_theta s' = theta_star nm n_along s e /\ b_phi s' = b_phi s /\
-  Rabs (sin e - n_along (normalize (polar_dir (b_phi s) (theta_star nm n_along s e))) * sin (b_theta s')) <= r /\
+  b_theta s' = signum e * theta_star nm n_along s e /\ b_phi s' = b_phi s /\
+  Rabs (sin (Rabs e) - n_along (normalize (polar_dir (b_phi s) (b_theta s'))) * sin (Rabs (b_theta s'))) <= r /\
   Rabs (theta_external_gen n_along s' - e) <= r / cos M.
 Proof.
   exact (fun nm n_along s e r M Hs He HM Hb Hc HrM =>
-    conj (proj1 (after_set_theta_external nm n_along s e M Hs He HM Hb))
-      (conj (proj2 (after_set_theta_external nm n_along s e M Hs He HM Hb))
+    conj (proj1 (after_set_theta_external nm n_along s e Hs Hb))
+      (conj (proj2 (after_set_theta_external nm n_along s e Hs Hb))
         (conj (stored_angle_satisfies_snell nm n_along s e r M Hs He HM Hb Hc)
               (snell_roundtrip nm n_along s e r M Hs He HM Hb Hc HrM)))).
 Qed.
 
 (* the property's numbers: theta_e in [0, 80 deg], residual <= 3e-8  ==>  read-back within 1e-5 deg *)
 Theorem C13_snell_roundtrip_80deg_partial : forall nm n_along s e r,
-  beam_inv s -> 0 <= e <= 80 * (PI / 180) -> r <= 3e-8 ->
+  beam_inv s -> Rabs e <= 80 * (PI / 180) -> r <= 3e-8 ->
   0 <= theta_star nm n_along s e <= PI / 2 ->
   snell_cost_gen n_along s e (theta_star nm n_along s e) <= r ->
   Rabs (theta_external_gen n_along (set_theta_external_gen (snell_inv_of nm n_along) s e) - e) <= 1e-5 * (PI / 180).
@@ -89,11 +92,11 @@ Proof. exact snell_roundtrip_80deg. Qed.
 
 (* with an index >= 1 the internal angle is not larger than the external one, up to the residual *)
 Theorem C13_internal_not_larger_partial : forall nm n_along s e r M,
-  beam_inv s -> 0 <= e <= M -> M < PI / 2 ->
+  beam_inv s -> Rabs e <= M -> M < PI / 2 ->
   0 <= theta_star nm n_along s e <= PI / 2 ->
   snell_cost_gen n_along s e (theta_star nm n_along s e) <= r ->
-  1 <= n_along (normalize (polar_dir (b_phi s) (theta_star nm n_along s e))) ->
-  sin (b_theta (set_theta_external_gen (snell_inv_of nm n_along) s e)) <= sin e + r.
+  1 <= n_along (normalize (polar_dir (b_phi s) (signum e * theta_star nm n_along s e))) ->
+  sin (Rabs (b_theta (set_theta_external_gen (snell_inv_of nm n_along) s e))) <= sin (Rabs e) + r.
 Proof. exact internal_not_larger. Qed.
 
 (* unit conversions *)
@@ -128,8 +131,8 @@ Theorem C13_waist_position : forall L (n_along : vec -> R),
 Proof. exact optimal_waist_position_gen_eq. Qed.
 
 (* non-vacuity *)
-Example C13_nonvacuous_snell : 0 <= 0 <= 80 * (PI / 180) /\ (0:R) <= 3e-8 /\ 80 * (PI / 180) < PI / 2.
-Proof. pose proof PI_RGT_0. repeat split; Lra.lra. Qed.
+Example C13_nonvacuous_snell : Rabs 0.5 <= 80 * (PI / 180) /\ (0:R) <= 3e-8 /\ 80 * (PI / 180) < PI / 2.
+Proof. rewrite Rabs_right by Lra.lra. pose proof PI_RGT_0. repeat split; try Lra.lra. apply Rminus_le. interval. Qed.
 Example C13_nonvacuous_inv : exists s, beam_inv s.
 Proof. exists (beam_new_gen Ordinary 0 0 1 1). apply new_inv. Qed.
 Example C13_nonvacuous_units : (1:R) <> 0.
@@ -141,10 +144,10 @@ From SpdVerif Require Import Spec.CrystalTypes Spec.Published Gen.Crystals Proof
 
 Theorem C13_internal_not_larger_builtin : forall nm c l T theta phi p s e r M,
   in_window c l -> temp_ok T ->
-  beam_inv s -> 0 <= e <= M -> M < PI / 2 ->
+  beam_inv s -> Rabs e <= M -> M < PI / 2 ->
   0 <= theta_star nm (builtin_index c l T theta phi p) s e <= PI / 2 ->
   snell_cost_gen (builtin_index c l T theta phi p) s e (theta_star nm (builtin_index c l T theta phi p) s e) <= r ->
-  sin (b_theta (set_theta_external_gen (snell_inv_of nm (builtin_index c l T theta phi p)) s e)) <= sin e + r.
+  sin (Rabs (b_theta (set_theta_external_gen (snell_inv_of nm (builtin_index c l T theta phi p)) s e))) <= sin (Rabs e) + r.
 Proof. exact internal_not_larger_builtin. Qed.
 
 Theorem C13_waist_position_builtin : forall c l T theta phi p L,
@@ -169,45 +172,111 @@ From SpdVerif Require Import Model.NM1d Proofs.C13_nm Proofs.C13_continuity.
 
 (* PROVED: the returned angle lies in [0, pi/2] and its residual is at most the residual at the seed theta_e *)
 Theorem C13_snell_nm_bounds_and_residual : forall sd fuel n_along s e,
-  0 <= e <= PI / 2 ->
+  Rabs e <= PI / 2 ->
   0 <= theta_star (nm_real sd fuel) n_along s e <= PI / 2 /\
-  snell_cost_gen n_along s e (theta_star (nm_real sd fuel) n_along s e) <= snell_cost_gen n_along s e e.
+  snell_cost_gen n_along s e (theta_star (nm_real sd fuel) n_along s e) <= snell_cost_gen n_along s e (Rabs e).
 Proof. exact snell_nm_bounds_and_residual. Qed.
 
 (* PROVED (intermediate value theorem): a continuous index >= 1 along the path gives a zero of the cost in [0, theta_e]:
    the contract `some point has residual 0` is a theorem *)
 Theorem C13_snell_root_exists : forall n_along s e,
-  0 <= e <= PI / 2 ->
-  (forall t, 0 <= t <= e -> continuity_pt (fun u => n_along (normalize (polar_dir (b_phi s) u))) t) ->
+  Rabs e <= PI / 2 ->
+  (forall t, 0 <= t <= Rabs e -> continuity_pt (fun u => n_along (normalize (polar_dir (b_phi s) (signum e * u)))) t) ->
   1 <= n_along (normalize (polar_dir (b_phi s) e)) ->
-  exists t, 0 <= t <= e /\ snell_cost_gen n_along s e t = 0.
+  exists t, 0 <= t <= Rabs e /\ snell_cost_gen n_along s e t = 0.
 Proof. exact snell_root_exists. Qed.
 
 (* both for the built-in crystals: continuity of the Fresnel index along the path and n > 1 are discharged *)
 Theorem C13_snell_root_exists_builtin : forall c l T theta phi p s e,
-  in_window c l -> temp_ok T -> 0 <= e <= PI / 2 ->
-  exists t, 0 <= t <= e /\ snell_cost_gen (builtin_index c l T theta phi p) s e t = 0.
+  in_window c l -> temp_ok T -> Rabs e <= PI / 2 ->
+  exists t, 0 <= t <= Rabs e /\ snell_cost_gen (builtin_index c l T theta phi p) s e t = 0.
 Proof. exact snell_root_exists_builtin. Qed.
 
 Theorem C13_snell_nm_builtin : forall sd fuel c l T theta phi p s e,
-  in_window c l -> temp_ok T -> 0 <= e <= PI / 2 ->
+  in_window c l -> temp_ok T -> Rabs e <= PI / 2 ->
   let n_along := builtin_index c l T theta phi p in
   let star := theta_star (nm_real sd fuel) n_along s e in
   0 <= star <= PI / 2 /\
-  snell_cost_gen n_along s e star <= (n_along (normalize (polar_dir (b_phi s) e)) - 1) * sin e.
+  snell_cost_gen n_along s e star <= (n_along (normalize (polar_dir (b_phi s) e)) - 1) * sin (Rabs e).
 Proof. exact snell_nm_builtin. Qed.
 
 (* round trip with the optimiser modelled.  PARTIAL: what remains a checked contract is convergence — that the residual r
    reached within the 100 iterations is <= 3e-8 (then the read-back is within 1e-5 deg by C13_snell_roundtrip_80deg_partial) *)
 Theorem C13_snell_roundtrip_model_partial : forall sd fuel n_along s e r M,
-  beam_inv s -> 0 <= e <= M -> M < PI / 2 ->
+  beam_inv s -> Rabs e <= M -> M < PI / 2 ->
   snell_cost_gen n_along s e (theta_star (nm_real sd fuel) n_along s e) <= r ->
-  sin e + r <= sin M ->
+  sin (Rabs e) + r <= sin M ->
   let s' := set_theta_external_gen (snell_inv_of (nm_real sd fuel) n_along) s e in
-  0 <= b_theta s' <= PI / 2 /\
-  Rabs (sin e - n_along (normalize (polar_dir (b_phi s) (b_theta s'))) * sin (b_theta s')) <= r /\
+  Rabs (b_theta s') <= PI / 2 /\
+  Rabs (sin (Rabs e) - n_along (normalize (polar_dir (b_phi s) (b_theta s'))) * sin (Rabs (b_theta s'))) <= r /\
   Rabs (theta_external_gen n_along s' - e) <= r / cos M.
 Proof. exact snell_roundtrip_model. Qed.
+
+(* ---- who calls optimal_waist_position: SPDC::assign_optimal_waist_positions (+ with_optimal_waist_positions), SPDC::try_as_optimum,
+   SPDCConfig::try_as_spdc (`auto`).  Gen/C13Callers.v (tools/gen/c13_callers.py) lists every call with its arguments read
+   symbolically; each caller sets both positions, the signal's from the signal's wavelength AND polarization, the idler's from the
+   idler's.  The generator fails closed on a call site it does not know. *)
+From SpdVerif Require Import Gen.C13Callers Proofs.C13_callers.
+
+Theorem C13_waist_position_callers : forall ls li ps pi,
+  List.Forall (waist_call_ok ls li ps pi) (waist_position_calls_gen ls li ps pi) /\
+  sets_both "assign_optimal_waist_positions"%string (waist_position_calls_gen ls li ps pi) /\
+  sets_both "try_as_optimum"%string (waist_position_calls_gen ls li ps pi) /\
+  sets_both "try_as_spdc"%string (waist_position_calls_gen ls li ps pi).
+Proof. exact waist_position_callers. Qed.
+
+(* sharpened (review): under the round-trip hypotheses the asin-domain guard of the forward relation is implied by the residual
+   bound (no condition on theta_i: covers the whole 0..80 deg range), and |theta_i| <= |theta_e| holds for the ANGLES up to r / cos M *)
+Theorem C13_snell_forward_after_set_partial : forall nm n_along s e r M,
+  beam_inv s -> Rabs e <= M -> M < PI / 2 ->
+  0 <= theta_star nm n_along s e <= PI / 2 ->
+  snell_cost_gen n_along s e (theta_star nm n_along s e) <= r -> sin (Rabs e) + r <= sin M ->
+  let s' := set_theta_external_gen (snell_inv_of nm n_along) s e in
+  sin (theta_external_gen n_along s') = n_along (normalize (polar_dir (b_phi s) (b_theta s'))) * sin (b_theta s').
+Proof. exact forward_relation_after_set. Qed.
+
+Theorem C13_internal_angle_not_larger_partial : forall nm n_along s e r M,
+  beam_inv s -> Rabs e <= M -> M < PI / 2 ->
+  0 <= theta_star nm n_along s e <= PI / 2 ->
+  snell_cost_gen n_along s e (theta_star nm n_along s e) <= r -> sin (Rabs e) + r <= sin M ->
+  1 <= n_along (normalize (polar_dir (b_phi s) (signum e * theta_star nm n_along s e))) ->
+  Rabs (b_theta (set_theta_external_gen (snell_inv_of nm n_along) s e)) <= Rabs e + r / cos M.
+Proof. exact internal_angle_not_larger. Qed.
+
+Theorem C13_internal_angle_not_larger_builtin : forall nm c l T theta phi p s e r M,
+  in_window c l -> temp_ok T ->
+  beam_inv s -> Rabs e <= M -> M < PI / 2 ->
+  0 <= theta_star nm (builtin_index c l T theta phi p) s e <= PI / 2 ->
+  snell_cost_gen (builtin_index c l T theta phi p) s e (theta_star nm (builtin_index c l T theta phi p) s e) <= r ->
+  sin (Rabs e) + r <= sin M ->
+  Rabs (b_theta (set_theta_external_gen (snell_inv_of nm (builtin_index c l T theta phi p)) s e)) <= Rabs e + r / cos M.
+Proof. exact internal_angle_not_larger_builtin. Qed.
+
+(* a witness for ALL hypotheses of the conditional Snell theorems at once (theta_e = 0.5 rad, constant index sin 0.5 / sin 0.3 ~ 1.62,
+   an optimiser that answers 0.3 rad: residual 0) *)
+Example C13_nonvacuous_snell_witness :
+  let nm := fun (_ : R -> R) (_ _ _ _ _ _ : R) => 0.3 in
+  let n_along := fun _ : vec => sin 0.5 / sin 0.3 in
+  let s := beam_new_gen Ordinary 0 0 1.55e-6 1e-4 in
+  beam_inv s /\ Rabs 0.5 <= 1 /\ 1 < PI / 2 /\ 0 <= theta_star nm n_along s 0.5 <= PI / 2 /\
+  snell_cost_gen n_along s 0.5 (theta_star nm n_along s 0.5) <= 3e-8 /\ sin (Rabs 0.5) + 3e-8 <= sin 1 /\
+  1 <= n_along (normalize (polar_dir (b_phi s) (signum 0.5 * theta_star nm n_along s 0.5))).
+Proof.
+  cbv zeta. unfold theta_star, snell_cost_gen. rewrite !div1.
+  assert (Hs3 : 0 < sin 0.3) by interval.
+  assert (Ha : Rabs 0.5 = 0.5) by (apply Rabs_right; Lra.lra).
+  assert (Hs5 : 0 < sin 0.5) by interval.
+  rewrite Ha. repeat split; try apply new_inv; try Lra.lra.
+  - pose proof PI2_1. Lra.lra.
+  - pose proof PI2_1. Lra.lra.
+  - rewrite (Rabs_right (sin 0.5)) by Lra.lra.
+    replace (sin 0.5 - sin 0.5 / sin 0.3 * sin 0.3) with 0 by (field; Lra.lra). rewrite Rabs_R0. Lra.lra.
+  - apply Rminus_le. interval.
+  - apply Rmult_le_reg_r with (sin 0.3); [exact Hs3 |]. unfold Rdiv. rewrite Rmult_assoc, Rinv_l, Rmult_1_r, Rmult_1_l by Lra.lra.
+    apply Rminus_le. interval.
+Qed.
+Example C13_nonvacuous_units_witness : (1.55e-6 : R) <> 0 /\ (1.2153e15 : R) <> 0.
+Proof. split; Lra.lra. Qed.
 
 Example C13_builtin_nonvacuous : in_window KTP 1.55 /\ temp_ok 20 /\ Rabs (sin 0) <= / 4.
 Proof. rewrite sin_0, Rabs_R0. unfold in_window, temp_ok; cbn. repeat split; Lra.lra. Qed.
@@ -235,3 +304,7 @@ Print Assumptions C13_snell_root_exists.
 Print Assumptions C13_snell_root_exists_builtin.
 Print Assumptions C13_snell_nm_builtin.
 Print Assumptions C13_snell_roundtrip_model_partial.
+Print Assumptions C13_waist_position_callers.
+Print Assumptions C13_snell_forward_after_set_partial.
+Print Assumptions C13_internal_angle_not_larger_partial.
+Print Assumptions C13_internal_angle_not_larger_builtin.
